@@ -3341,9 +3341,19 @@ static Type check_statement_impl(TypeChecker *tc, ASTNode *stmt) {
         }
 
         case AST_FOR: {
-            /* For loop variable has type int */
+            /* For loop variable has type int: `for i in (range a b)` and
+             * `for x in array_of_int`. Over an array of float, string or bool
+             * it has the element type. */
+            Type loop_var_type = TYPE_INT;
+            ASTNode *for_in_expr = stmt->as.for_stmt.range_expr;
+            if (for_in_expr && for_in_expr->type != AST_CALL) {
+                Type elem_type = infer_array_element_type(for_in_expr, tc->env);
+                if (elem_type == TYPE_FLOAT || elem_type == TYPE_STRING || elem_type == TYPE_BOOL) {
+                    loop_var_type = elem_type;
+                }
+            }
             Value val = create_void();
-            env_define_var(tc->env, stmt->as.for_stmt.var_name, TYPE_INT, false, val);
+            env_define_var(tc->env, stmt->as.for_stmt.var_name, loop_var_type, false, val);
 
             /* Set definition location for visibility checking */
             Symbol *loop_var_sym = env_get_var(tc->env, stmt->as.for_stmt.var_name);
